@@ -68,6 +68,8 @@ def install(rec, model, state):
         L = self.searchlist
         if not isinstance(L, list):
             return
+        if state.get("expect_list") is not None and self is state.get("extrap_finder"):
+            L = state["expect_list"]       # the entries an extrapolated leaf list stands for: the leaves and their ancestors
         rec.mon("M-find:FindInList")
         case = {"search": str(search), "list": list(L) if len(L) <= 400 else None, "variant": state.get("variant")}
         if exc is not None:
@@ -175,9 +177,19 @@ def worker(args):
         ents = universe.gen_universe(rng, model, vocab, n_leaves=rng.choice([12, 30, 60]), names=names)
         full = universe.with_ancestors(ents)
         state["uid"] = "%s-%d" % (args.get("seed"), u)
-        for vname, L in universe.list_variants(rng, model, ents):
+        variants = universe.list_variants(rng, model, ents)
+        variants.append(("leaf_only_extrapolated", list(ents)))
+        for vname, L in variants:
             state["variant"] = vname
-            finder = FindInList(L)
+            if vname == "leaf_only_extrapolated":
+                # FindInList builds the hierarchy itself: same answers as the complete list
+                finder = FindInList(list(L), do_extrapolate=True)
+                state["expect_list"] = list(full)
+                state["extrap_finder"] = finder
+            else:
+                state.pop("expect_list", None)
+                state.pop("extrap_finder", None)
+                finder = FindInList(L)
             for k in range(args["searches"] // 4 + 1):
                 r = rng.random()
                 if r < 0.75:
